@@ -33,6 +33,8 @@ pub struct Ctx {
     pub seed: u64,
     pub verif_dir: PathBuf,
     pub start: Instant,
+    /// true inside a crash-isolated child process (`verif child ...`)
+    pub in_child: bool,
 }
 
 impl Ctx {
@@ -40,7 +42,30 @@ impl Ctx {
         let verif_dir = std::env::var("VERIF_DIR")
             .map(PathBuf::from)
             .unwrap_or_else(|_| PathBuf::from("/verif"));
-        Ctx { id: id.to_string(), tier, seed, verif_dir, start: Instant::now() }
+        Ctx { id: id.to_string(), tier, seed, verif_dir, start: Instant::now(), in_child: false }
+    }
+
+    /// The binary of the given profile: this executable for its own profile, the path in
+    /// VERIF_DEBUG_EXE / VERIF_RELEASE_EXE (exported by run_check.sh) for the other one.
+    pub fn exe_for(profile: &str) -> Option<PathBuf> {
+        if profile == Ctx::profile() {
+            return std::env::current_exe().ok();
+        }
+        let var = if profile == "debug" { "VERIF_DEBUG_EXE" } else { "VERIF_RELEASE_EXE" };
+        match std::env::var(var) {
+            Ok(p) if Path::new(&p).exists() => Some(PathBuf::from(p)),
+            _ => {
+                // sibling target directory layout: .../target/<release|debug>/verif
+                let me = std::env::current_exe().ok()?;
+                let dir = me.parent()?.parent()?;
+                let cand = dir.join(profile).join("verif");
+                if cand.exists() {
+                    Some(cand)
+                } else {
+                    None
+                }
+            }
+        }
     }
 
     pub fn profile() -> &'static str {
